@@ -668,7 +668,7 @@ impl<'a> W<'a> {
     }
 
     fn batch_scenario(&mut self) {
-        let sizes_q: [(usize, u32); 14] = [(0, 3), (1, 6), (2, 8), (3, 8), (5, 8), (8, 8), (16, 6), (32, 4), (64, 3), (93, 1), (94, 2), (95, 2), (96, 1), (300, 1)];
+        let sizes_q: [(usize, u32); 14] = [(0, 3), (1, 6), (2, 8), (3, 8), (5, 8), (8, 8), (16, 6), (32, 4), (64, 3), (93, 1), (94, 2), (95, 2), (96, 1), (300, 2)];
         let sizes_t: [(usize, u32); 5] = [(128, 2), (249, 1), (250, 1), (399, 1), (400, 1)];
         let mut sizes = sizes_q.to_vec();
         if self.thorough {
@@ -727,15 +727,29 @@ impl<'a> W<'a> {
                 entries[pos].2 = sg.to_vec();
             }
         }
+        // long batches: two entries a whole block apart with only their S halves swapped (each then fails alone; an
+        // implementation that draws its coefficients block-wise must not give them the same coefficient)
+        let block_swap = n > 256 && self.rng.chance(1, 3);
+        if block_swap {
+            let dists: Vec<usize> = [256usize, 512, 1024, 2048, 4096].iter().cloned().filter(|d| *d < n).collect();
+            let dist = dists[self.rng.below(dists.len() as u64) as usize];
+            let pos = self.rng.below((n - dist) as u64) as usize;
+            bump(&mut self.c, "fault:batch_S_halves_swapped_block_distance");
+            let (a, b) = (entries[pos].2[32..].to_vec(), entries[pos + dist].2[32..].to_vec());
+            if a != b {
+                entries[pos].2[32..].copy_from_slice(&b);
+                entries[pos + dist].2[32..].copy_from_slice(&a);
+            }
+        }
         // corruption: most stay inside the property's domain
-        let big_tail = n > 4096 && self.rng.coin();
+        let big_tail = !block_swap && n > 4096 && self.rng.coin();
         if big_tail {
             // a bad entry in the last few positions of a very large batch
             bump(&mut self.c, "fault:batch_msg_changed_in_tail");
             let pos = n - 1 - self.rng.below(4) as usize;
             entries[pos].1.push(9);
         }
-        if n > 0 && !big_tail && self.faulty() {
+        if n > 0 && !big_tail && !block_swap && self.faulty() {
             let pos = match self.rng.below(4) {
                 0 => 0,
                 1 => n - 1,
